@@ -217,7 +217,8 @@ class Ctx(object):
         if only and name not in only.split(","):
             return
         built = self.build(variant)
-        trs, metas, problems = trmod.record_chains(built["worker"], self.seed * 104729 + sum(map(ord, self.prop)), ntraces, maxops)
+        trs, metas, problems = trmod.record_chains(built["worker"], self.seed * 104729 + sum(map(ord, self.prop)), ntraces, maxops,
+                                                           leaf3d=(self.prop == "C08"))
 
         def mine(m, why):
             if ops is not None and m.get("act") not in ops and m.get("act") != "chain":
